@@ -19,7 +19,7 @@ def dmin_of_trace(trace, k):
         out.append(min(trace[i + n - 1] - trace[i] for i in range(len(trace) - n + 1)))
     return out
 
-def gen_dmin(rng, realisable=True, allow_plateau_end=False, maxlen=6):
+def gen_dmin(rng, realisable=True, allow_plateau_end=True, maxlen=6):
     """a delta-min vector; realisable = super-additive, non-decreasing, last > 0"""
     for _ in range(100):
         m = rng.randint(1, 5)
@@ -65,7 +65,7 @@ def gen_prefix(rng):
         steps.append((d, n))
     return ["steps", hz, [list(s) for s in steps]]
 
-def gen_ab(rng, depth=1, kinds=None, realisable=True, allow_plateau_end=False):
+def gen_ab(rng, depth=1, kinds=None, realisable=True, allow_plateau_end=True):
     """kinds: subset of periodic sporadic never curve extrap prefix propagated jitter sum"""
     kinds = kinds or ["periodic", "sporadic", "curve", "extrap", "propagated", "jitter", "sum"]
     leaf = [k for k in kinds if k in ("periodic", "sporadic", "never", "curve", "extrap", "prefix")]
